@@ -64,9 +64,8 @@ class Loop:
 
     def _assume_inv(self, ex, contract, frame):
         for k, e in self.invariant.items():
-            ex.assume(lift_bool(contract.eval_clause(ex, e, frame.env))
-                      if not isinstance(contract.eval_clause(ex, e, frame.env), bool)
-                      else contract.eval_clause(ex, e, frame.env))
+            v = contract.assumed_clause(ex, e, frame.env)
+            ex.assume(v if isinstance(v, bool) else lift_bool(v))
 
     def _havoc(self, ex, frame):
         mods = self.modifies
@@ -231,6 +230,16 @@ class Contract(Contract_):
         REGISTRY[self.qualname] = self
 
     # ----------------------------------------------------------- clauses
+    def assumed_clause(self, ex, expr, env):
+        """a clause that becomes a hypothesis (callee ensures, requires,
+        loop invariant after havoc)"""
+        saved = ex.opt.get("assume_mode")
+        ex.opt["assume_mode"] = True
+        try:
+            return self.eval_clause(ex, expr, env)
+        finally:
+            ex.opt["assume_mode"] = saved
+
     def eval_clause(self, ex, expr, env):
         """evaluate a clause string in spec mode; returns bool or Sym bool"""
         node = _parse_expr(expr)
@@ -278,6 +287,7 @@ class Contract(Contract_):
         pyfunc = self.target
         node, src = function_ast(pyfunc)
         ex.target = self.qualname
+        ex.target_short = self.short
         inputs = self.make_inputs(ex)
         ex.inputs = dict(inputs.vars)
         if self.setup is not None:
@@ -285,7 +295,7 @@ class Contract(Contract_):
         if self.ghost_pre:
             self.exec_ghost(ex, self.ghost_pre, inputs)
         for k, e in self.requires.items():
-            ex.assume(_as_term(self.eval_clause(ex, e, inputs)))
+            ex.assume(_as_term(self.assumed_clause(ex, e, inputs)))
         ex.requires_pc = list(ex.pc)
         old = Obj(object, {k: snapshot(v) for k, v in inputs.vars.items()}, "old")
         ex.old = old
@@ -299,6 +309,9 @@ class Contract(Contract_):
             args += list(inputs.vars[a.vararg.arg])
         kwargs = {p.arg: inputs.vars[p.arg] for p in a.kwonlyargs
                   if p.arg in inputs.vars}
+        if a.kwarg is not None and a.kwarg.arg in inputs.vars:
+            kw = inputs.vars[a.kwarg.arg]       # **kwargs given as a dict
+            kwargs.update(kw.d if isinstance(kw, PDict) else kw)
         env = ex.bind_args(func, args, kwargs)
         for k, v in inputs.vars.items():     # ghost parameters
             env.vars.setdefault(k, v)
@@ -432,17 +445,22 @@ class Contract(Contract_):
     def check_frame(self, ex, inputs, old, tag):
         if self.modifies is None:
             return
+        def walk(path, o, v):
+            for fld, ov in o.fields.items():
+                p = f"{path}.{fld}"
+                if p in self.modifies or f"{path}.*" in self.modifies:
+                    continue
+                nv = v.fields.get(fld, Unbound)
+                if isinstance(ov, Obj) and isinstance(nv, Obj) and ov.name == nv.name \
+                        and any(m.startswith(p + ".") for m in self.modifies):
+                    walk(p, ov, nv)      # a nested path is in the frame: descend
+                    continue
+                ex.check(f"{self.short}.frame[{p}]", same_value(ex, ov, nv),
+                         f"{p} unchanged")
         for pname, v in inputs.vars.items():
             if not isinstance(v, Obj):
                 continue
-            o = old.fields[pname]
-            for fld, ov in o.fields.items():
-                if f"{pname}.{fld}" in self.modifies or f"{pname}.*" in self.modifies:
-                    continue
-                nv = v.fields.get(fld, Unbound)
-                ex.check(f"{self.short}.frame[{pname}.{fld}]",
-                         same_value(ex, ov, nv),
-                         f"{pname}.{fld} unchanged")
+            walk(pname, old.fields[pname], v)
 
     # ------------------------------------------------- call by contract
     def apply(self, ex, args, kwargs, frame, node):
@@ -451,8 +469,15 @@ class Contract(Contract_):
         fnode, _ = function_ast(pyfunc)
         func = Func(fnode, None, self.qualname, sys.modules[pyfunc.__module__])
         env = ex.bind_args(func, args, kwargs)
-        where = f"@{frame.func.qualname.split(':')[1]}:L{node.lineno}" \
-            if frame is not None and node is not None else ""
+        where = ""
+        if frame is not None and node is not None:
+            caller = frame.func.qualname.split(':')[1]
+            ts = getattr(ex, "target_short", None)
+            if frame.func.qualname == ex.target and ts:
+                caller = ts        # variants of one function differ by name
+            elif ts and ts != ex.target.split(":")[1]:
+                caller = f"{ts}/{caller}"      # inlined callee of a named variant
+            where = f"@{caller}:L{node.lineno}"
         if self.ghost_pre:
             self.exec_ghost(ex, self.ghost_pre, env)
         for k, e in self.requires.items():
@@ -500,7 +525,7 @@ class Contract(Contract_):
             exc = ex.make_exc(chosen.exc)
             post.vars["exc"] = exc
             for k, e in chosen.ensures.items():
-                ex.assume(_as_term(self.eval_clause(ex, e, post)))
+                ex.assume(_as_term(self.assumed_clause(ex, e, post)))
             raise PyRaise(exc)
         result = fresh(ex, self.result, f"{self.short}.result") \
             if self.result is not None else None
@@ -509,7 +534,13 @@ class Contract(Contract_):
             self.exec_ghost(ex, self.ghost_post, post)
             result = post.vars["result"]
         for k, e in self.ensures.items():
-            ex.assume(_as_term(self.eval_clause(ex, e, post)))
+            v = self.assumed_clause(ex, e, post)
+            if v is False:
+                # a postcondition that is false whatever the callee returns
+                # would silently cut every path through this call (vacuity)
+                raise OutOfReach(f"contract of {self.short}: clause [{k}] cannot hold "
+                                 f"at this call (no result schema, or contradictory contract)")
+            ex.assume(_as_term(v))
         return result
 
 
@@ -765,7 +796,8 @@ def concretize(model, v):
     if isinstance(v, PList):
         return [concretize(model, x) for x in v.items]
     if isinstance(v, PDict):
-        return {k: concretize(model, x) for k, x in v.d.items()}
+        return {(k.name if isinstance(k, Obj) else k): concretize(model, x)
+                for k, x in v.d.items()}
     if isinstance(v, MutBytes):
         return bytearray(concretize(model, Sym(v.t, BYTES)))
     if isinstance(v, SymList):
@@ -783,6 +815,8 @@ def concretize(model, v):
             model.eval(z3.Select(v.arr, z3.IntVal(k)), model_completion=True)))
     if isinstance(v, SymMap):
         return "<symbolic map>"
+    if isinstance(v, dict):
+        return {k: concretize(model, x) for k, x in v.items()}
     if isinstance(v, Obj):
         return {"__class__": v.cls.__name__,
                 **{k: concretize(model, x) for k, x in v.fields.items()}}
